@@ -1,6 +1,7 @@
 import Ww.Driver.Proto
 import Ww.Driver.Meta
 import Ww.Driver.Sys
+import Ww.Driver.C12
 open Ww.Driver
 
 def dispatch (l : Line) : List Verdict :=
@@ -11,6 +12,9 @@ def dispatch (l : Line) : List Verdict :=
   | "hstep" => handleHStep l
   | "hafter" => handleHAfter l
   | "hstart" => [Verdict.ok]
+  | "glob" => handleGlob l
+  | "needslogin" => handleNeedsLogin l
+  | "alog" => handleALog l
   | k => [Verdict.bad s!"unknown kind {k}"]
 
 partial def loop (h : IO.FS.Stream) (out : IO.FS.Stream) (i : Nat) : IO Unit := do
